@@ -162,6 +162,11 @@ EXTENDS Numbering, TLC, Json, IOUtils
 CONSTANTS ValidateOnPrint,   \* TRUE = pinned tree, FALSE = as required
           EagerType,         \* TRUE = constructors compute Typ (the code)
           MdVariant,         \* "code" | "one-pass"
+          AssignAllFirst,    \* TRUE = the code since 094ed28: WriteTo numbers the locals of *every* function before
+                             \* anything is printed; FALSE = each function is numbered when it is printed
+          OperandsMemo,      \* FALSE = the code: Operands() builds a fresh slot list; TRUE = the list is kept while
+                             \* the operand count is unchanged (seeded variant)
+          RenameTaken,       \* FALSE = the code; TRUE = AssignIDs renames a local whose name is already taken
           HeaderBeforeAssign,\* FALSE = the code: Func.LLString numbers the locals, then renders the header;
                              \* TRUE = the header (name, parameters) is rendered before AssignIDs
           GlobalRefresh,     \* "fields" | "addrspace" | "never": when Global.Type() / Func.Type() recompute Typ
@@ -204,13 +209,19 @@ World == [gl |-> gl, fn |-> fn, md |-> md]
 NoTC      == [set |-> FALSE, as |-> 0, ct |-> 0]
 TC(a, c)  == [set |-> TRUE, as |-> a, ct |-> c]
 NewTC     == IF EagerType THEN TC(0, 0) ELSE NoTC      \* what a constructor leaves in Typ
-NoRef     == [t |-> "none", i |-> 0]
-Ref(t, i) == [t |-> t, i |-> i]
+NoRef      == [t |-> "none", i |-> 0, b |-> 0]
+Ref(t, i)  == [t |-> t, i |-> i, b |-> 0]
+RefB(f, b) == [t |-> "block", i |-> f, b |-> b]        \* blockaddress(@f, %b)
 
 GEnt(nm) == [name |-> nm, id |-> 0, res |-> "value", as |-> 0, ct |-> 0, va |-> FALSE,
              tc |-> NewTC, ref |-> NoRef, snap |-> NoTC, att |-> 0]
+\* args: the two operands of a "call2" / "phi2" (<<>> otherwise); memo: state of the slot list a
+\* memoising Operands() would keep -- "none", "fresh" (points into the current Args array) or
+\* "stale" (points into an array that has been replaced); always "none" for the code as it is
 IInst(nm, r, op, ref) == [name |-> nm, id |-> 0, res |-> r, op |-> op, ref |-> ref,
-                          as |-> 0, ct |-> 0, tc |-> IF op = "alloca" THEN NewTC ELSE NoTC, att |-> 0]
+                          as |-> 0, ct |-> 0, tc |-> IF op = "alloca" THEN NewTC ELSE NoTC, att |-> 0,
+                          args |-> IF op \in {"call2", "phi2"} THEN <<1, 2>> ELSE <<>>, memo |-> "none"]
+ArgVals == {1, 2, 3}
 
 \* Global.Type / Func.Type: computed once, and again when the cached type no longer matches the
 \* fields ("addrspace": the AddrSpace only, as commit 1644016 wrote it; "never": the pinned tree)
@@ -239,6 +250,8 @@ Terms == {t \in AllTerms : t.k \in TermKinds}
 
 PlainInsts == {IInst(nm, "value", "plain", NoRef) : nm \in NewNames}
               \cup {IInst("", r, "plain", NoRef) : r \in InstRes \ {"value"}}
+OperandInsts == (IF "call2" \in InstOps THEN {IInst("", "void", "call2", NoRef)} ELSE {})
+                \cup (IF "phi2" \in InstOps THEN {IInst(nm, "value", "phi2", NoRef) : nm \in NewNames} ELSE {})
 AllocaInsts == IF "alloca" \in InstOps THEN {IInst(nm, "value", "alloca", NoRef) : nm \in NewNames} ELSE {}
 
 ParamSeqs == UNION {[1..n -> {Ent(nm) : nm \in NewNames}] : n \in 0..MaxParams}
@@ -310,7 +323,11 @@ B2N(x) == IF x THEN 1 ELSE 0
 Ty(k, a, c) == [k |-> k, a |-> a, c |-> c]
 \* a global definition: AddrSpace and ContentType from the fields; for a global initialised
 \* with another object the ContentType is the type copied at construction
-GlobalTy(e) == IF e.ref = NoRef THEN <<Ty("gdef", e.as, e.ct)>> ELSE <<Ty("gref", e.snap.as, e.snap.ct)>>
+\* the block a blockaddress names, as it is shown: its number at that moment (-1: named)
+BaTy(w, r)  == <<Ty("ba", Tok(w.fn[r.i].blocks[r.b]).id, 0)>>
+GlobalTy(w, e) == IF e.ref = NoRef THEN <<Ty("gdef", e.as, e.ct)>>
+                  ELSE IF e.ref.t = "block" THEN BaTy(w, e.ref)
+                  ELSE <<Ty("gref", e.snap.as, e.snap.ct)>>
 FuncTy(e)   == <<Ty("fdef", e.as, B2N(e.va))>>
 \* an instruction: alloca shows its fields; a use shows the *cached* type of its operand
 InstTy(w, f, i) ==
@@ -318,13 +335,15 @@ InstTy(w, f, i) ==
     [] i.op = "use" /\ i.ref.t = "global" -> LET e == w.gl.globals[i.ref.i] IN <<Ty("guse", e.tc.as, e.tc.ct)>>
     [] i.op = "use" /\ i.ref.t = "func"   -> LET e == w.gl.funcs[i.ref.i] IN <<Ty("fuse", e.tc.as, B2N(e.va))>>
     [] i.op = "use" /\ i.ref.t = "alloca" -> LET a == TheAlloca(w.fn[f]) IN <<Ty("ause", a.tc.as, a.tc.ct)>>
+    [] i.op = "use" /\ i.ref.t = "block"  -> BaTy(w, i.ref)
+    [] i.op \in {"call2", "phi2"}         -> <<Ty("args", i.args[1], i.args[2])>>
     [] OTHER -> <<>>
 RECURSIVE InstsTy(_, _, _)
 InstsTy(w, f, is) == IF is = <<>> THEN <<>> ELSE InstTy(w, f, Head(is)) \o InstsTy(w, f, Tail(is))
 RECURSIVE BlocksTy(_, _, _)
 BlocksTy(w, f, bs) == IF bs = <<>> THEN <<>> ELSE InstsTy(w, f, Head(bs).insts) \o BlocksTy(w, f, Tail(bs))
-RECURSIVE GlobalsTy(_)
-GlobalsTy(s) == IF s = <<>> THEN <<>> ELSE GlobalTy(Head(s)) \o GlobalsTy(Tail(s))
+RECURSIVE GlobalsTy(_, _)
+GlobalsTy(w, s) == IF s = <<>> THEN <<>> ELSE GlobalTy(w, Head(s)) \o GlobalsTy(w, Tail(s))
 
 AttOf(w, n) == IF n.att = 0 THEN <<>> ELSE <<IdOfKey(w.md, n.att)>>
 RECURSIVE SeqAtt(_, _)
@@ -351,9 +370,30 @@ TouchInsts(w, f, is) == IF is = <<>> THEN w ELSE TouchInsts(Touch(w, f, Head(is)
 RECURSIVE TouchBlocks(_, _, _)
 TouchBlocks(w, f, bs) == IF bs = <<>> THEN w ELSE TouchBlocks(TouchInsts(w, f, Head(bs).insts), f, Tail(bs))
 
+\* the seeded variant of AssignIDs: a named local whose name is already taken gets a suffix, for good
+RECURSIVE DedupSeq(_, _)
+DedupSeq(s, taken) ==            \* [s, taken]
+  IF s = <<>> THEN [s |-> <<>>, taken |-> taken]
+  ELSE LET n == Head(s)
+           counts == n.name # "" /\ n.res = "value"
+           nm == IF counts /\ n.name \in taken THEN n.name \o "1" ELSE n.name
+           r == DedupSeq(Tail(s), IF counts THEN taken \cup {nm} ELSE taken)
+       IN [s |-> <<[n EXCEPT !.name = nm]>> \o r.s, taken |-> r.taken]
+RECURSIVE DedupBlocks(_, _)
+DedupBlocks(bs, taken) ==
+  IF bs = <<>> THEN <<>>
+  ELSE LET l == DedupSeq(<<Head(bs)>>, taken)
+           is == DedupSeq(Head(bs).insts, l.taken)
+           t == DedupSeq(<<Head(bs).term>>, is.taken)
+       IN <<[l.s[1] EXCEPT !.insts = is.s, !.term = t.s[1]]>> \o DedupBlocks(Tail(bs), t.taken)
+DedupBody(body) == IF ~RenameTaken THEN body
+                   ELSE LET ps == DedupSeq(body.params, {})
+                        IN [params |-> ps.s, blocks |-> DedupBlocks(body.blocks, ps.taken)]
+
 \* Func.LLString: AssignIDs (which asks every instruction for its Type), then header and body
 PrintFuncW(w, f, validate) ==
-  LET a  == AssignLocalIDs(w.fn[f], validate)
+  LET a0 == AssignLocalIDs(w.fn[f], validate)
+      a  == [a0 EXCEPT !.f = DedupBody(@)]
       w1 == [w EXCEPT !.fn[f] = IF a.ok THEN FillBody(a.f) ELSE a.f]
   IN IF ~a.ok THEN [w |-> w1, out |-> Panic("local-id")]
      ELSE LET w2 == TouchBlocks(w1, f, w1.fn[f].blocks) IN
@@ -373,6 +413,13 @@ PrintFuncsFrom(w, f, validate, acc) ==
        ELSE PrintFuncsFrom(r.w, f + 1, validate,
                            Ok(acc.text \o r.out.text, acc.ty \o r.out.ty, acc.mdt \o r.out.mdt))
 
+RECURSIVE AssignAllFuncs(_, _, _)
+AssignAllFuncs(w, f, validate) ==      \* [ok, w]
+  IF ~AssignAllFirst \/ f > Len(w.fn) THEN [ok |-> TRUE, w |-> w]
+  ELSE LET a == AssignLocalIDs(w.fn[f], validate)
+           w1 == [w EXCEPT !.fn[f] = IF a.ok THEN FillBody(DedupBody(a.f)) ELSE a.f]
+       IN IF ~a.ok THEN [ok |-> FALSE, w |-> w1] ELSE AssignAllFuncs(w1, f + 1, validate)
+
 \* Module.WriteTo / String
 PrintModuleW(w, validate) ==
   LET \* sub-step 1: assignGlobalIDs fills Typ of globals (and, once it reaches them, functions)
@@ -383,11 +430,18 @@ PrintModuleW(w, validate) ==
      ELSE LET m == AssignMd(w1.md)                                  \* sub-step 2
               w2 == [w1 EXCEPT !.md = m.md]
           IN IF ~m.ok THEN [w |-> w2, out |-> Panic("md-id")]
-             ELSE \* sub-step 3: globals, aliases, ifuncs are written, then each function, then
+             ELSE \* sub-step 3 (since 094ed28): the locals of every function are numbered, because a
+                  \* blockaddress in a global initialiser or in an earlier function names a block of
+                  \* a function that is printed later
+                  LET a3 == AssignAllFuncs(w2, 1, validate) IN
+                  IF ~a3.ok THEN [w |-> a3.w, out |-> Panic("local-id")]
+                  ELSE
+                  \* sub-step 4: globals, aliases, ifuncs are written, then each function, then
                   \* the metadata definitions (collected here in mdt after the attachments)
-                  LET r == PrintFuncsFrom(w2, 1, validate,
+                  LET w3 == a3.w
+                      r == PrintFuncsFrom(w3, 1, validate,
                              Ok(Toks(g1.globals) \o Toks(g1.aliases) \o Toks(g1.ifuncs),
-                                GlobalsTy(g1.globals), SeqAtt(w2, g1.globals)))
+                                GlobalsTy(w3, g1.globals), SeqAtt(w3, g1.globals)))
                   IN IF ~r.out.ok THEN r
                      ELSE [w |-> r.w, out |-> [r.out EXCEPT !.mdt = @ \o MdIdsOf(r.w.md)]]
 
@@ -410,8 +464,10 @@ NewGlobalW(w, g, nm) == [w EXCEPT !.gl[g] = Append(@, GEnt(nm))]
 \* m.NewGlobalDef(nm, target): init.Type() is called and copied into ContentType
 NewGlobalRefW(w, nm, r) ==
   LET w1 == Touch(w, 0, r)
-      e  == IF r.t = "global" THEN w1.gl.globals[r.i] ELSE w1.gl.funcs[r.i]
-  IN [w1 EXCEPT !.gl.globals = Append(@, [GEnt(nm) EXCEPT !.ref = r, !.snap = e.tc])]
+      sn == CASE r.t = "global" -> w1.gl.globals[r.i].tc
+              [] r.t = "func"   -> w1.gl.funcs[r.i].tc
+              [] OTHER          -> NoTC
+  IN [w1 EXCEPT !.gl.globals = Append(@, [GEnt(nm) EXCEPT !.ref = r, !.snap = sn])]
 NewFuncW(w, nm, ps)  == [w EXCEPT !.gl.funcs = Append(@, GEnt(nm)),
                                   !.fn = Append(@, [params |-> ps, blocks |-> <<>>])]
 \* f.NewBlock(nm), optionally followed at once by block.NewRet / NewBr / ... (t # NoTerm)
@@ -421,6 +477,26 @@ InsertInstW(w, f, b, p, i) == [w EXCEPT !.fn[f].blocks[b].insts = InsAt(@, p, i)
 RemoveInstW(w, f, b, p)    == [w EXCEPT !.fn[f].blocks[b].insts = DelAt(@, p)]
 SetTermW(w, f, b, t)       == [w EXCEPT !.fn[f].blocks[b].term = [t EXCEPT !.tgt = b]]   \* successor: the block itself
 RetargetW(w, f, b, to)     == [w EXCEPT !.fn[f].blocks[b].term.tgt = to]
+
+\* operand-level edits of a call2 / phi2
+\* call.Args = []value.Value{a, b} (phi.Incs = ...): a new backing array -- a kept slot list goes stale
+ReplaceArgsW(w, f, b, p, as) ==
+  LET i == w.fn[f].blocks[b].insts[p] IN
+  [w EXCEPT !.fn[f].blocks[b].insts[p] = [i EXCEPT !.args = as, !.memo = IF i.memo = "fresh" THEN "stale" ELSE i.memo]]
+\* call.Args[0], call.Args[1] = call.Args[1], call.Args[0]: in place
+SwapArgsW(w, f, b, p) == [w EXCEPT !.fn[f].blocks[b].insts[p].args = <<@[2], @[1]>>]
+\* *inst.Operands()[slot] = v: the mutator itself asks for the slot list
+SetSlotW(w, f, b, p, k, v) ==
+  LET i == w.fn[f].blocks[b].insts[p] IN
+  [w EXCEPT !.fn[f].blocks[b].insts[p] =
+     IF OperandsMemo /\ i.memo = "stale" THEN i                       \* the write lands in the orphaned array
+     ELSE [i EXCEPT !.args[k] = v, !.memo = IF OperandsMemo THEN "fresh" ELSE "none"]]
+\* QueryOperands: Operands() of every instruction
+QueryOperandsW(w) ==
+  IF ~OperandsMemo THEN w
+  ELSE [w EXCEPT !.fn = [f \in 1..Len(@) |-> [@[f] EXCEPT !.blocks = [b \in 1..Len(@) |->
+          [@[b] EXCEPT !.insts = [p \in 1..Len(@) |->
+             IF @[p].op \in {"call2", "phi2"} /\ @[p].memo = "none" THEN [@[p] EXCEPT !.memo = "fresh"] ELSE @[p]]]]]]]
 
 \* field assignments after construction; v in {0, 1}
 SetAllocaField(body, fld, v) ==
@@ -526,15 +602,19 @@ ParseText ==
           /\ hist' = <<[op |-> "ParseText", src |-> src]>>
           /\ UNCHANGED out
 
+\* every block of every function: blockaddress(@f, %b)
+BlockRefs == UNION {{RefB(f, b) : b \in 1..Len(fn[f].blocks)} : f \in 1..Len(fn)}
+
 NewGlobalA ==
   \E g \in Groups, nm \in NewNames :
     /\ Len(gl[g]) < MaxPerGroup
     /\ Mutate(LAMBDA w : NewGlobalW(w, g, nm), [op |-> "NewGlobal", g |-> g, nm |-> nm])
 NewGlobalRefA ==
   /\ RefGlobals /\ Len(gl.globals) < MaxPerGroup
-  /\ \E nm \in NewNames, r \in {Ref("global", i) : i \in 1..Len(gl.globals)} \cup {Ref("func", i) : i \in 1..Len(gl.funcs)} :
+  /\ \E nm \in NewNames, r \in {Ref("global", i) : i \in 1..Len(gl.globals)} \cup {Ref("func", i) : i \in 1..Len(gl.funcs)}
+                              \cup BlockRefs :
        /\ r.t \in RefTargets
-       /\ Mutate(LAMBDA w : NewGlobalRefW(w, nm, r), [op |-> "NewGlobalRef", nm |-> nm, rt |-> r.t, ri |-> r.i])
+       /\ Mutate(LAMBDA w : NewGlobalRefW(w, nm, r), [op |-> "NewGlobalRef", nm |-> nm, rt |-> r.t, ri |-> r.i, rb |-> r.b])
 NewFuncA ==
   \E nm \in NewNames, ps \in ParamSeqs :
     /\ Len(fn) < MaxFuncs
@@ -550,9 +630,9 @@ UseInsts(f) ==
   IF "use" \notin InstOps THEN {}
   ELSE {IInst("", "void", "use", r) :
           r \in {Ref("global", i) : i \in 1..Len(gl.globals)} \cup {Ref("func", i) : i \in 1..Len(gl.funcs)}
-                \cup (IF HasAlloca(fn[f]) THEN {Ref("alloca", 0)} ELSE {})}
+                \cup (IF HasAlloca(fn[f]) THEN {Ref("alloca", 0)} ELSE {}) \cup BlockRefs}
 NewInstsFor(f) ==
-  PlainInsts \cup (IF HasAlloca(fn[f]) THEN {} ELSE AllocaInsts)
+  PlainInsts \cup OperandInsts \cup (IF HasAlloca(fn[f]) THEN {} ELSE AllocaInsts)
   \cup {i \in UseInsts(f) : i.ref.t \in RefTargets}
 InsertInstA ==
   \E f \in 1..Len(fn) : \E b \in 1..Len(fn[f].blocks) :
@@ -560,7 +640,7 @@ InsertInstA ==
       /\ Len(fn[f].blocks[b].insts) < MaxInsts
       /\ Mutate(LAMBDA w : InsertInstW(w, f, b, p, i),
                 [op |-> "InsertInst", f |-> f, b |-> b, p |-> p, nm |-> i.name, res |-> i.res,
-                 iop |-> i.op, rt |-> i.ref.t, ri |-> i.ref.i])
+                 iop |-> i.op, rt |-> i.ref.t, ri |-> i.ref.i, rb |-> i.ref.b])
 RemoveInstA ==
   \E f \in 1..Len(fn) : \E b \in 1..Len(fn[f].blocks) : \E p \in 1..Len(fn[f].blocks[b].insts) :
     /\ fn[f].blocks[b].insts[p].op = "alloca" => ~UsesAlloca(fn[f])      \* no dangling operand
@@ -580,6 +660,19 @@ SetNameA ==
     /\ Exists(World, tg) /\ Obj(World, tg).name # nm
     /\ tg.t = "inst" => Obj(World, tg).res = "value"
     /\ Mutate(LAMBDA w : SetNameW(w, tg, nm), [op |-> "SetName", tg |-> tg, nm |-> nm])
+OperandEditA ==
+  \E f \in 1..Len(fn) : \E b \in 1..Len(fn[f].blocks) : \E p \in 1..Len(fn[f].blocks[b].insts) :
+    /\ fn[f].blocks[b].insts[p].op \in {"call2", "phi2"}
+    /\ \/ \E as \in ArgVals \X ArgVals :
+            /\ as # fn[f].blocks[b].insts[p].args
+            /\ Mutate(LAMBDA w : ReplaceArgsW(w, f, b, p, as),
+                      [op |-> "ReplaceArgs", f |-> f, b |-> b, p |-> p, a1 |-> as[1], a2 |-> as[2]])
+       \/ /\ fn[f].blocks[b].insts[p].args[1] # fn[f].blocks[b].insts[p].args[2]
+          /\ Mutate(LAMBDA w : SwapArgsW(w, f, b, p), [op |-> "SwapArgs", f |-> f, b |-> b, p |-> p])
+       \/ \E k \in 1..2, v \in ArgVals :
+            /\ fn[f].blocks[b].insts[p].args[k] # v
+            /\ Mutate(LAMBDA w : SetSlotW(w, f, b, p, k, v),
+                      [op |-> "SetSlot", f |-> f, b |-> b, p |-> p, slot |-> k, v |-> v])
 SetFieldA ==
   \E fld \in FieldEdits, i \in 1..(MaxPerGroup + MaxFuncs + MaxSrc), v \in {0, 1} :
     /\ FieldExists(World, fld, i) /\ FieldValue(World, fld, i) # v
@@ -611,13 +704,15 @@ PrintBlockA == "PrintBlock" \in Observers /\
     Observe(PrintBlockW(World, f, b), [op |-> "PrintBlock", f |-> f, b |-> b])
 QueryTypeA == "QueryType" \in Observers /\
   Observe([w |-> QueryTypeW(World), out |-> out], [op |-> "QueryType"])
-QueryA == \E q \in Observers \cap {"QueryIdent", "QueryOperands", "QuerySuccs"} :
+QueryOperandsA == "QueryOperands" \in Observers /\
+  Observe([w |-> QueryOperandsW(World), out |-> out], [op |-> "QueryOperands"])
+QueryA == \E q \in Observers \cap {"QueryIdent", "QuerySuccs"} :
     Observe([w |-> World, out |-> out], [op |-> q])
 
 Next == \/ ParseText
         \/ NewGlobalA \/ NewGlobalRefA \/ NewFuncA \/ NewBlockA \/ InsertInstA \/ RemoveInstA
-        \/ SetTermA \/ RetargetA \/ SetNameA \/ SetFieldA \/ InsertMdA \/ RemoveMdA \/ AttachMdA
-        \/ PrintModuleA \/ PrintFuncA \/ PrintBlockA \/ QueryTypeA \/ QueryA
+        \/ SetTermA \/ RetargetA \/ SetNameA \/ OperandEditA \/ SetFieldA \/ InsertMdA \/ RemoveMdA \/ AttachMdA
+        \/ PrintModuleA \/ PrintFuncA \/ PrintBlockA \/ QueryTypeA \/ QueryOperandsA \/ QueryA
 Spec == Init /\ [][Next]_vars
 
 ----------------------------------------------------------------------------
@@ -676,9 +771,17 @@ TypeOK == /\ Len(fn) = Len(gl.funcs) /\ Len(twin.fn) = Len(fn) /\ Len(twin.md) =
           /\ AttachedKeys(World) \subseteq MdKeys(md) \cup {0}
 
 ----------------------------------------------------------------------------
+(* Duplicate names: legal API use in passing, but a module LLVM accepts has none.  The replay     *)
+(* judges only histories whose final state is duplicate-free.                                    *)
+NamedOf(s) == {s[i].name : i \in {j \in 1..Len(s) : s[j].name # "" /\ s[j].res = "value"}}
+CountNamed(s) == Cardinality({j \in 1..Len(s) : s[j].name # "" /\ s[j].res = "value"})
+LocalsOf(body) == FlatLocal(body)
+DupW(w) == \/ CountNamed(FlatGlobal(w.gl)) # Cardinality(NamedOf(FlatGlobal(w.gl)))
+           \/ \E f \in 1..Len(w.fn) : CountNamed(LocalsOf(w.fn[f])) # Cardinality(NamedOf(LocalsOf(w.fn[f])))
+
 (* One test per explored transition (ACTION_CONSTRAINT, -workers 1).       *)
 Emit ==
-  Serialize(ToJson([hist |-> hist', want |-> Ideal(twin'),
+  Serialize(ToJson([hist |-> hist', want |-> Ideal(twin'), dup |-> DupW(twin'),
                     model |-> PrintModuleW([gl |-> gl', fn |-> fn', md |-> md'], ValidateOnPrint).out.ok]) \o "\n",
             EmitFile,
             [format |-> "TXT", charset |-> "UTF-8",
